@@ -16,8 +16,9 @@ import threading
 
 
 class _Run:
-    def __init__(self, fns, tracked):
+    def __init__(self, fns, tracked, granularity="line"):
         self.fns = fns
+        self.granularity = granularity
         self.tracked = tuple(tracked)
         self.n = len(fns)
         self.go = [threading.Semaphore(0) for _ in fns]
@@ -42,6 +43,13 @@ class _Run:
                 fn_ = frame.f_code.co_filename
                 for t_ in tracked:
                     if t_ in fn_:
+                        if self.granularity == "call":
+                            # coarser: one scheduling point per entry into a function of a tracked file
+                            self.where[i] = (fn_.rsplit("/", 1)[-1], frame.f_lineno)
+                            self.state[i] = "at_point"
+                            self.ctl.release()
+                            self.go[i].acquire()
+                            return None
                         return local
             return None
         return glob
@@ -59,10 +67,10 @@ class _Run:
             self.ctl.release()
 
 
-def run(fns, tracked, prefix):
+def run(fns, tracked, prefix, granularity="line"):
     """one execution: replays `prefix` (list of thread ids chosen at the successive scheduling points), afterwards keeps the running thread
     while it can continue and else takes the lowest id.  Returns (results, points) with points = [(enabled ids, chosen id, running id)]"""
-    r = _Run(fns, tracked)
+    r = _Run(fns, tracked, granularity)
     ths = [threading.Thread(target=r._body, args=(i,), daemon=True) for i in range(r.n)]
     for t in ths:
         t.start()
@@ -90,14 +98,14 @@ def run(fns, tracked, prefix):
     return r.results, points
 
 
-def explore(fns, tracked, bound, max_runs=20000):
+def explore(fns, tracked, bound, max_runs=20000, granularity="line"):
     """all schedules with at most `bound` preemptions.  Yields (choices, results, n_points).  `capped` attribute of the generator's
     return is reported through the last yielded tuple's fourth element (True if max_runs stopped the search)."""
     stack = [[]]
     nruns = 0
     while stack:
         prefix = stack.pop()
-        results, points = run(fns, tracked, prefix)
+        results, points = run(fns, tracked, prefix, granularity)
         nruns += 1
         choices = [p[1] for p in points]
         yield choices, results, len(points), False
